@@ -448,22 +448,48 @@ class SimCtl:
             pass
 
 
-class _Sink(io.TextIOBase):
+class _Proxy(io.TextIOBase):
+    """stdout / stderr proxy: the simulator prints warnings and tracebacks of injected faults from its worker
+    thread; they are dropped while muted (all threads, or all but the main thread)"""
+    mute_all = 0
+    mute_others = 0
+
+    def __init__(self, real):
+        self.real = real
+
     def write(self, s):
-        return len(s)
+        if _Proxy.mute_all > 0:
+            return len(s)
+        if _Proxy.mute_others > 0 and threading.current_thread() is not threading.main_thread():
+            return len(s)
+        return self.real.write(s)
+
+    def flush(self):
+        try:
+            self.real.flush()
+        except Exception:
+            pass
+
+
+def _install_proxy():
+    if not isinstance(sys.stdout, _Proxy):
+        sys.stdout = _Proxy(sys.stdout)
+    if not isinstance(sys.stderr, _Proxy):
+        sys.stderr = _Proxy(sys.stderr)
 
 
 @contextlib.contextmanager
-def quiet():
-    """The simulator prints warnings and tracebacks of injected faults from its worker thread."""
-    so, se = sys.stdout, sys.stderr
-    sys.stdout = sys.stderr = _Sink()
+def quiet(keep_main=False):
+    _install_proxy()
+    attr = "mute_others" if keep_main else "mute_all"
+    setattr(_Proxy, attr, getattr(_Proxy, attr) + 1)
     logging.disable(logging.CRITICAL)
     try:
         yield
     finally:
-        sys.stdout, sys.stderr = so, se
-        logging.disable(logging.NOTSET)
+        setattr(_Proxy, attr, getattr(_Proxy, attr) - 1)
+        if _Proxy.mute_all == 0 and _Proxy.mute_others == 0:
+            logging.disable(logging.NOTSET)
 
 
 def clean_trace(tr):
